@@ -66,7 +66,7 @@ def composition(rng, n):
 
 
 def generate(rng, tier):
-    n = 400 if tier == "quick" else 4000
+    n = 640 if tier == "quick" else 4000
     cases = []
     k = 0
     for i in range(n):
